@@ -243,7 +243,9 @@ def minimise_history(bins, hist, depth0, pred):
 # ------------------------------------------------------------------ C11 traces
 
 class BigProject:
-    """n files src/fNN.rs with given size classes; no structure violations."""
+    """n entries src/fNN.rs with given size classes; no structure violations. Class 'e' is an entry
+    that cannot be read (a directory with that name): listed in --files it yields an I/O error,
+    which is a warning on stderr and no result."""
 
     def __init__(self, exe, sizes, baseline_idx, ff_cfg=False, wae=False):
         self.exe = exe
@@ -258,15 +260,35 @@ class BigProject:
         self.cfg_noff = "\n".join(c for c in cfg if c not in ("[check]", "fail_fast = true")) + "\n"
         self.sb.write(".sloc-guard.toml", self.cfg_ff)
         self.res = {}
+        self.sizes = list(sizes)
         for p, ch in zip(self.paths, sizes):
-            n = SIZE[ch]
-            self.sb.write(p, body(p, n))
-            self.res[p] = {"path": p, "kind": "n", "status": "F" if n > 10 else ("W" if n >= 8 else "P"), "code": n, "limit": 10, "hash": file_hash(p, n)}
+            if ch == "e":
+                os.makedirs(os.path.join(self.sb.proj, p))
+                continue
+            self.resize(p, ch)
         self.bl = None
         if baseline_idx is not None:
             self.bl = {self.paths[i]: ("C", SIZE[sizes[i]], file_hash(self.paths[i], SIZE[sizes[i]])) for i in baseline_idx}
             write_disk(self.sb.proj, self.bl)
         self.spawns = 0
+
+    def resize(self, p, ch):
+        n = SIZE[ch]
+        self.sb.write(p, body(p, n))
+        self.res[p] = {"path": p, "kind": "n", "status": "F" if n > 10 else ("W" if n >= 8 else "P"), "code": n, "limit": 10, "hash": file_hash(p, n)}
+
+    def check(self, fl, files=None, threads=1):
+        """a run with arbitrary flags (ratchet phases); returns (exit, observed results, stderr)"""
+        self.sb.write(".sloc-guard.toml", self.cfg_ff if (fl.get("ff_cfg")) else self.cfg_noff)
+        self.spawns += 1
+        rc, out, err = self.sb.run(self.exe, cli_args(fl, files), env={"RAYON_NUM_THREADS": str(threads)})
+        try:
+            obs, _ = parse_json_results(out)
+        except Exception:
+            obs = []
+        for r in obs:
+            r["hash"] = self.res.get(r["path"], {}).get("hash", "")
+        return rc, obs, err
 
     def run(self, ff, files=None, threads=1, wae=False, wo=False):
         fl = {"b": self.bl is not None, "ff": ff and not self.ff_cfg, "wae": wae, "wo": wo}
@@ -408,6 +430,13 @@ def replay_file(ctx, path, prop):
             print("  model:", m)
         for f in classify_history(recs, set()):
             print("ORACLE", f[:3])
+    elif j.get("trace") and j["trace"].get("shape"):
+        t = j["trace"]
+        recs, fs, _ = big_ratchet_case(bins["sgcli"], ctx.rng, t["n"], t.get("threads", 4), t["fixed_idx"])
+        for r in recs:
+            print("step", r["note"], r["flags"], "exit", r["exit"], "entries", len(r["disk0"] or {}), "->", len(r["disk1"] or {}), "stale listed", len(r["stale_reported"] or []))
+        for f in fs:
+            print("ORACLE", f["prop"], f["what"])
     elif j.get("trace"):
         t = j["trace"]
         tr, _ = trace_case(bins["sgcli"], t["sizes"], t["baseline"], [t["order"]], [t["threads"]], 3, t["ff_cfg"], t["wae"], t["wo"], t.get("full_scan", False))
@@ -426,3 +455,104 @@ def replay_file(ctx, path, prop):
     else:
         print(json.dumps(j, indent=1)[:3000])
     return 0
+
+
+# ------------------------------------------------------------------ many entries resolved at once (C10)
+
+def big_ratchet_case(exe, rng, n, threads=4, fixed=None):
+    """n files over the limit, update all, most of them fixed at once, then ratchet runs.
+    Returns a list of step records (flags, rp, dirs, disk0, disk1, exit, stale) and findings."""
+    pj = BigProject(exe, "o" * n, None)
+    recs, findings = [], []
+    try:
+        def step(fl, files=None, note=""):
+            d0 = read_disk(pj.sb.proj)
+            rc, obs, err = pj.check(fl, files, threads)
+            d1 = read_disk(pj.sb.proj)
+            rec = {"flags": dict(fl), "files": files, "obs": obs, "rp": [pre(r) for r in obs], "disk0": d0, "disk1": d1, "exit": rc,
+                   "stale_reported": parse_stale(err), "note": note, "n": n,
+                   "dirs": []}   # no [structure] section: no directory is counted, no path is absent
+            recs.append(rec)
+            return rec
+        step({"u": "a"}, note="update all")
+        if fixed is None:
+            fixed = rng.sample(range(n), rng.randint(max(21, n // 2), n - 1))
+        for i in fixed:
+            pj.resize(pj.paths[i], rng.choice("uw"))
+        mode_src = "rc"
+        s1 = step({"b": True, "rc": "s"}, note="strict before tightening")
+        a1 = step({"b": True, mode_src: "a"}, note="auto")
+        a2 = step({"b": True, mode_src: "a"}, note="auto again")
+        s2 = step({"b": True, "rc": "s"}, note="strict after tightening")
+        want_stale = {norm_key(pj.paths[i]) for i in fixed}
+        removed = set(view(a1["disk0"]) or {}) - set(view(a1["disk1"]) or {})
+        hist = {"n": n, "fixed": len(fixed), "fixed_idx": sorted(fixed), "threads": threads, "shape": "n files over, update all, `fixed` of them brought under the limit, --ratchet strict / auto / auto / strict"}
+        if s1["exit"] != 1:
+            findings.append({"prop": "C10", "class": None, "what": "strict: exit %d with %d resolved entries" % (s1["exit"], len(fixed)), "trace": hist})
+        if removed != want_stale:
+            findings.append({"prop": "C10", "class": None, "what": "auto removed %d entries, %d were evaluated and resolved" % (len(removed), len(want_stale)), "trace": hist})
+        if (a2["disk1"] or {}) != (a2["disk0"] or {}):
+            findings.append({"prop": "C10", "class": None, "what": "auto_fixpoint: a rerun after an auto tightening removed %d more entries" % (len(a2["disk0"]) - len(a2["disk1"] or {})), "trace": hist})
+        if s2["exit"] != (1 if any(r["status"] == "F" for r in s2["obs"]) else 0) or s2["stale_reported"]:
+            findings.append({"prop": "C10", "class": None, "what": "auto_fixpoint: strict run right after auto reports %s stale, exit %d" % (s2["stale_reported"], s2["exit"]), "trace": hist})
+        return recs, findings, pj.spawns
+    finally:
+        pj.close()
+
+
+def big_ratchet_phase(ctx, bins, model, k):
+    """k large projects; every step also goes through check_step."""
+    rng = ctx.rng
+    allrecs, findings, spawns = [], [], 0
+    for _ in range(k):
+        n = rng.choice([40, 48, 60])
+        recs, fs, sp = big_ratchet_case(bins["sgcli"], rng, n, rng.choice([1, 4, 16]))
+        allrecs += recs
+        findings += fs
+        spawns += sp
+    lines = []
+    for rec in allrecs:
+        d = rec["dirs"]
+        lines.append("step\t%s\t%s\t%s\t%s" % (w_flags(rec["flags"]), w_results(rec["rp"]), w_keys(d) if d else "_", w_bl(rec["disk0"])))
+    mouts, merrs = run_sharded(model, lines)
+    if merrs:
+        raise CheckBroken("model driver failed: %s" % merrs[:1])
+    mism = []
+    for rec, mo in zip(allrecs, mouts):
+        st = "".join(r["status"] for r in rec["obs"]) or "_"
+        f = mo.split("\t")
+        if len(f) < 4 or (f[0], f[1], f[2]) != (st, str(rec["exit"]), w_bl(rec["disk1"])):
+            mism.append({"what": "large project, step '%s' (n=%d): exit %s, %d entries afterwards; model exit %s, %d entries" % (
+                rec["note"], rec["n"], rec["exit"], len(rec["disk1"] or {}), f[1] if len(f) > 1 else "?", len(p_bl(f[2]) or {}) if len(f) > 2 else -1)})
+        elif rec["stale_reported"] is not None and rec["flags"].get("rc") == "s" and w_keys(rec["stale_reported"]) != f[3]:
+            mism.append({"what": "large project, step '%s': %d stale paths listed, model %d" % (rec["note"], len(rec["stale_reported"]), len(p_keys(f[3])))})
+    return {"steps": len(allrecs), "findings": findings, "mismatches": mism, "spawns": spawns}
+
+
+# ------------------------------------------------------------------ unreadable entries under fail-fast (C09 non-masking)
+
+def error_entry_phase(ctx, bins, model, quick=True):
+    """--files lists that contain an entry that cannot be read (I/O error, no result) next to recorded and
+    unrecorded violations, every order, fail-fast by flag and by config: an unrecorded violation must still
+    fail the run and be reported Failed when it was evaluated."""
+    exe = bins["sgcli"]
+    cases = [("eo", None), ("eoo", [1]), ("oeo", [0]), ("euo", None)] + ([] if quick else [("eoow", [1, 2]), ("eeo", None), ("woe", None), ("eoou", [2])])
+    traces, spawns, findings = [], 0, []
+    for i, (sizes, bl) in enumerate(cases):
+        perms = list(itertools.permutations(range(len(sizes))))
+        tr, sp = trace_case(exe, sizes, bl, perms, [1, 4], 1, i % 2 == 1, False, False, False)
+        traces += tr
+        spawns += sp
+    validate_traces(model, traces)
+    tie = []
+    for t in traces:
+        slimt = {k2: t[k2] for k2 in ("sizes", "baseline", "order", "threads", "ff_cfg", "wae", "wo", "full_scan", "exit", "exit_noff")}
+        slimt["observed"] = [r["path"] + ":" + r["status"] for r in t["obs"]]
+        loaded = view(t["disk"])
+        unrec = [r for r in t["R"] if r["status"] == "F" and (loaded is None or norm_key(r["path"]) not in loaded)]
+        if unrec and t["exit"] != 1:
+            findings.append({"prop": "C09", "class": None, "trace": slimt,
+                             "what": "unrecorded_always_fails: exit %d under fail-fast although %s is over the limit and not in the baseline (an unreadable entry precedes it)" % (t["exit"], unrec[0]["path"])})
+        if not t["ffsub"] or t["exit"] != t["model_exit"]:
+            tie.append({"what": "fail-fast run with an unreadable entry: not ff_sub of the full run, or exit differs from the model", "trace": slimt})
+    return {"traces": len(traces), "findings": findings, "mismatches": tie, "spawns": spawns}
